@@ -20,7 +20,50 @@ INTERP_NOTE = ("Bounded: every document of the family within MaxNodes (3-5) node
                "simulation; trusted: TLC, the runner, expat projection. The specification states the intended design; "
                "behaviour matching a named deviation that is listed in known_findings.json is reported as KNOWN-FINDING.")
 
+GEOM_NOTE = ("Bounded: cases over a grid of quarter user units (negative / fractional included) enumerated by TLC; "
+             "the reference rules in Geom.tla are transcribed from the layout reference and the property text, not from the code; "
+             "trusted: TLC, runner, expat projection; tolerance = the 3-decimal output rounding.")
+
 CHECKS = {
+    "C08": dict(
+        category="model_checking",
+        text="TLC enumerates item lists (all element kinds that do / do not contribute) x border x scale x supplied root "
+             "attributes, computes Extent / RootBox in Geom.tla and checks enclosure, integrality, < 1 unit slack and "
+             "idempotence on every case; each case is replayed and the root viewBox / width / height compared; a second "
+             "oracle recomputes the extent from the output's own geometry for the repository examples.",
+        note=GEOM_NOTE, technique="TLC enumeration + invariants on Geom.tla (extent family) + replay against the implementation",
+        design_ref="DESIGN.md 7 (C08)"),
+    "C09": dict(
+        category="model_checking",
+        text="TLC enumerates reference kinds x subject kinds x |h |H |v |V with gaps, @loc with anchors and dx/dy, edge "
+             "offsets (abs, negative, percent), scalar references, relative sizes and chains, computes the placed box "
+             "with Geom.tla and checks the identities of the layout reference (@t:0% = @tl, anchor round trip, centring, "
+             "gap) on every case; each case is replayed and the subject's output geometry compared.",
+        note=GEOM_NOTE, technique="TLC enumeration + invariants on Geom.tla (rel family) + replay against the implementation",
+        design_ref="DESIGN.md 7 (C09)"),
+    "C11": dict(
+        category="model_checking",
+        text="TLC enumerates shapes x boxes x 6x6 per-axis constraint pairs x dx/dy and checks Solve(Project(box)) = box; "
+             "every case is written in several spellings (longhand, shorthands, one/two values, separators) which must all "
+             "yield the same attribute map = the native geometry of the box with no shorthand left.",
+        note=GEOM_NOTE, technique="TLC enumeration + invariants on Geom.tla (solve family) + replay + metamorphic comparison of spellings",
+        design_ref="DESIGN.md 7 (C11)"),
+    "C12": dict(
+        category="model_checking",
+        text="TLC enumerates reference lists x container kinds x 1-4 value margins (abs, percent, negative), computes "
+             "grown union / shrunk intersection in Geom.tla and checks enclosure identities; replay: rect containers "
+             "equal the box, circle/ellipse containers satisfy the enclosure predicate on the output numbers, "
+             "surround/inside/margin absent.",
+        note=GEOM_NOTE, technique="TLC enumeration + invariants on Geom.tla (contain family) + replay against the implementation",
+        design_ref="DESIGN.md 7 (C12)"),
+    "C13": dict(
+        category="model_checking",
+        text="TLC enumerates two-box arrangements (9 sectors, overlapping, nested, touching, identical) x endpoint forms x "
+             "connector kinds and computes the set of minimal-distance candidate pairs (exact integer squares); replay: "
+             "output endpoints are one of the minimal pairs, h/v lines run through the middle of the overlap, corner "
+             "polylines are rectilinear and perpendicular at both ends, connector attributes absent.",
+        note=GEOM_NOTE, technique="TLC enumeration + invariants on Geom.tla (conn family) + replay against the implementation",
+        design_ref="DESIGN.md 7 (C13)"),
     "C10": dict(
         category="model_checking",
         text="TLC checks on Interp.tla (family order: all reference graphs over <= 4-5 id'd shapes incl. dangling, self and "
